@@ -360,6 +360,9 @@ macro_rules! ext_mod {
                 /// the reference map of the C18 oracle: key -> value of the member
                 pub refmaps: Vec<BTreeMap<usize, i64>>,
                 pub annot: Option<String>,
+                /// address of every node's lock (learned at creation) and the lock trace of the last edge operation
+                pub lockmap: Vec<(usize, usize)>,
+                pub last_lt: Option<String>,
             }
             kind_search!($kind);
             kind_reversed!($kind);
@@ -579,6 +582,11 @@ macro_rules! ext_mod {
                         }
                         if !r { "hang".to_string() } else { format!("yield={} res=[{}]", fmt_edges(&yielded), res.join(",")) }
                     }
+                    "lt" => match &ext.last_lt {
+                        // lock trace of the preceding edge operation (sync flavours; empty for the plain ones)
+                        Some(s) => format!("lt={s}"),
+                        None => "lt=".to_string(),
+                    },
                     "conc" => conc_dispatch!($conc, $m, st, ext, t, ctx, case, li),
                     "cmp" => {
                         // cmp k1 v1 k2 v2 : comparison operators on two fresh nodes
